@@ -4,18 +4,28 @@ Import ListNotations.
 Require Import EmbossV.Text.IntCodec.
 Open Scope Z_scope.
 
-Ltac divlia := Z.to_euclidean_division_equations; lia.
-
 (* ------------------------------------------------------------------ *)
 (* facts about the eight types (symbolic, enough for lia)               *)
 (* ------------------------------------------------------------------ *)
+Definition ty_facts_b (t : ity) : bool :=
+  (ty_min (promote t) <=? ty_min t) && (ty_min t <=? 0) && (127 <=? ty_max t) &&
+  (ty_max t <=? ty_max (promote t)) &&
+  (if ity_signed t then ty_min t =? - ty_max t - 1 else ty_min t =? 0) &&
+  (ty_max t <? 18446744073709551616) && (2147483647 <=? ty_max (promote t)) &&
+  (if ity_signed t then ty_max t <? 9223372036854775808 else true).
+
+Lemma ty_facts_b_true : forall t, ty_facts_b t = true.
+Proof. intros [[] []]; vm_compute; reflexivity. Qed.
+
 Lemma ty_facts : forall t,
   ty_min (promote t) <= ty_min t /\ ty_min t <= 0 /\ 127 <= ty_max t /\ ty_max t <= ty_max (promote t) /\
   (ity_signed t = false -> ty_min t = 0) /\
-  (ity_signed t = true -> ty_min t = - ty_max t - 1) /\
-  ty_max t < 2 ^ 64 /\ 2147483647 <= ty_max (promote t) /\
-  (ty_min (promote t) = 0 \/ ty_min (promote t) <= -2147483648).
-Proof. intros [[] []]; vm_compute; intuition (try discriminate; try lia). Qed.
+  (ity_signed t = true -> ty_min t = - ty_max t - 1 /\ ty_max t < 9223372036854775808) /\
+  ty_max t < 18446744073709551616 /\ 2147483647 <= ty_max (promote t).
+Proof.
+  intros t. pose proof (ty_facts_b_true t) as H. unfold ty_facts_b in H.
+  destruct (ity_signed t); repeat split; try discriminate; intros; try lia.
+Qed.
 
 Lemma c_int_facts : ty_min c_int = -2147483648 /\ ty_max c_int = 2147483647.
 Proof. vm_compute; auto. Qed.
@@ -29,6 +39,9 @@ Proof. intros t z H; unfold chk; rewrite H; reflexivity. Qed.
 Lemma base_ok_cases : forall b, base_ok b = true -> b = 2 \/ b = 10 \/ b = 16.
 Proof. intros b; unfold base_ok; lia. Qed.
 
+Lemma base_ok_range : forall b, base_ok b = true -> 2 <= b <= 16.
+Proof. intros b H; apply base_ok_cases in H; lia. Qed.
+
 Lemma digit_of_range : forall c d, digit_of c = Some d -> 0 <= d < 16.
 Proof.
   intros c d; unfold digit_of.
@@ -38,29 +51,85 @@ Proof.
 Qed.
 
 (* ------------------------------------------------------------------ *)
+(* division facts, proved once in a small context                       *)
+(* ------------------------------------------------------------------ *)
+Lemma div_gt_iff : forall a n b, 0 < b -> (a > n / b <-> a * b > n).
+Proof.
+  intros a n b Hb.
+  pose proof (Z.mul_div_le n b Hb). pose proof (Z.mul_succ_div_gt n b Hb).
+  split; intros H1; nia.
+Qed.
+
+Lemma div_range : forall n b, 0 < b -> 0 <= n -> 0 <= n / b <= n.
+Proof.
+  intros n b Hb Hn. split; [apply Z.div_pos; lia|].
+  apply Z.div_le_upper_bound; [lia|nia].
+Qed.
+
+Lemma mod_range : forall n b, 0 < b -> 0 <= n mod b < b.
+Proof. intros; apply Z.mod_pos_bound; lia. Qed.
+
+Lemma quot_neg : forall n b, 0 < b -> n <= 0 -> Z.quot n b = - ((- n) / b).
+Proof.
+  intros n b Hb Hn. replace n with (- (- n)) at 1 by lia.
+  rewrite Z.quot_opp_l by lia. rewrite Z.quot_div_nonneg by lia. reflexivity.
+Qed.
+
+Lemma quot_lt_iff : forall a n b, 0 < b -> n <= 0 -> (a < Z.quot n b <-> a * b < n).
+Proof.
+  intros a n b Hb Hn. rewrite quot_neg by lia.
+  pose proof (div_gt_iff (- a) (- n) b Hb). split; intros; nia.
+Qed.
+
+Lemma quot_neg_range : forall n b, 0 < b -> n <= 0 -> n <= Z.quot n b <= 0.
+Proof.
+  intros n b Hb Hn. rewrite quot_neg by lia.
+  pose proof (div_range (- n) b Hb). lia.
+Qed.
+
+Lemma succ_div_carry : forall n b, 0 < b -> n mod b + 1 = b ->
+  (n + 1) / b = n / b + 1 /\ (n + 1) mod b = 0.
+Proof.
+  intros n b Hb H. pose proof (Z.div_mod n b ltac:(lia)) as E.
+  assert (E2 : n + 1 = b * (n / b + 1) + 0) by nia.
+  split; [symmetry; apply (Z.div_unique _ _ _ 0); lia | symmetry; apply (Z.mod_unique _ _ (n / b + 1)); lia].
+Qed.
+
+Lemma succ_div_nocarry : forall n b, 0 < b -> n mod b + 1 <> b ->
+  (n + 1) / b = n / b /\ (n + 1) mod b = n mod b + 1.
+Proof.
+  intros n b Hb H. pose proof (Z.div_mod n b ltac:(lia)) as E.
+  pose proof (mod_range n b Hb).
+  assert (E2 : n + 1 = b * (n / b) + (n mod b + 1)) by lia.
+  split; [symmetry; apply (Z.div_unique _ _ _ (n mod b + 1)); lia
+         | symmetry; apply (Z.mod_unique _ _ (n / b)); lia].
+Qed.
+
+(* ------------------------------------------------------------------ *)
 (* one accumulation step of DecodeInteger: no UB, exact overflow test   *)
 (* ------------------------------------------------------------------ *)
-Ltac chk_step :=
-  rewrite chk_ok by (apply fits_iff; divlia); cbn [bind].
-
 Lemma dec_step_pos : forall t base acc d,
   base_ok base = true -> 0 <= acc <= ty_max t -> 0 <= d < base ->
   dec_step t false base acc d =
     if acc * base + d <=? ty_max t then Ok (acc * base + d) else Reject.
 Proof.
   intros t base acc d Hb Ha Hd.
-  pose proof (ty_facts t) as F.
+  pose proof (ty_facts t) as (F1 & F2 & F3 & F4 & _).
+  apply base_ok_range in Hb.
   unfold dec_step.
-  apply base_ok_cases in Hb.
   assert (Hq : Z.quot (ty_max t - d) base = (ty_max t - d) / base)
     by (apply Z.quot_div_nonneg; lia).
-  chk_step. rewrite Hq.
-  chk_step.
+  pose proof (div_range (ty_max t - d) base ltac:(lia) ltac:(lia)) as Hr.
+  pose proof (div_gt_iff acc (ty_max t - d) base ltac:(lia)) as Hi.
+  rewrite chk_ok by (apply fits_iff; lia). cbn [bind]. rewrite Hq.
+  rewrite chk_ok by (apply fits_iff; lia). cbn [bind].
   destruct (acc >? (ty_max t - d) / base) eqn:E.
-  - destruct (acc * base + d <=? ty_max t) eqn:E2; [|reflexivity].
-    exfalso. destruct Hb as [->|[->| ->]]; divlia.
-  - assert (acc * base + d <= ty_max t) by (destruct Hb as [->|[->| ->]]; divlia).
-    chk_step. chk_step. rewrite chk_ok by (apply fits_iff; lia).
+  - destruct (acc * base + d <=? ty_max t) eqn:E2; [|reflexivity]. exfalso; lia.
+  - assert (acc * base + d <= ty_max t) by lia.
+    assert (0 <= acc * base) by nia.
+    rewrite chk_ok by (apply fits_iff; lia). cbn [bind].
+    rewrite chk_ok by (apply fits_iff; lia). cbn [bind].
+    rewrite chk_ok by (apply fits_iff; lia).
     destruct (acc * base + d <=? ty_max t) eqn:E2; [reflexivity|lia].
 Qed.
 
@@ -71,17 +140,22 @@ Lemma dec_step_neg : forall t base acc d,
     if ty_min t <=? acc * base - d then Ok (acc * base - d) else Reject.
 Proof.
   intros t base acc d Hs Hb Ha Hd.
-  pose proof (ty_facts t) as F.
+  pose proof (ty_facts t) as (F1 & F2 & F3 & F4 & _ & F6 & _).
+  specialize (F6 Hs). destruct F6 as [F6 _].
+  apply base_ok_range in Hb.
   unfold dec_step.
-  apply base_ok_cases in Hb.
-  assert (Hd16 : d < 16) by lia.
-  assert (Hm : ty_min t <= -128) by lia.
-  chk_step. chk_step.
+  assert (Hm : ty_min t + d <= 0) by lia.
+  pose proof (quot_neg_range (ty_min t + d) base ltac:(lia) Hm) as Hr.
+  pose proof (quot_lt_iff acc (ty_min t + d) base ltac:(lia) Hm) as Hi.
+  rewrite chk_ok by (apply fits_iff; lia). cbn [bind].
+  rewrite chk_ok by (apply fits_iff; lia). cbn [bind].
   destruct (acc <? Z.quot (ty_min t + d) base) eqn:E.
-  - destruct (ty_min t <=? acc * base - d) eqn:E2; [|reflexivity].
-    exfalso. destruct Hb as [->|[->| ->]]; divlia.
-  - assert (ty_min t <= acc * base - d) by (destruct Hb as [->|[->| ->]]; divlia).
-    chk_step. chk_step. rewrite chk_ok by (apply fits_iff; lia).
+  - destruct (ty_min t <=? acc * base - d) eqn:E2; [|reflexivity]. exfalso; lia.
+  - assert (ty_min t <= acc * base - d) by lia.
+    assert (acc * base <= 0) by nia.
+    rewrite chk_ok by (apply fits_iff; lia). cbn [bind].
+    rewrite chk_ok by (apply fits_iff; lia). cbn [bind].
+    rewrite chk_ok by (apply fits_iff; lia).
     destruct (ty_min t <=? acc * base - d) eqn:E2; [reflexivity|lia].
 Qed.
 
@@ -257,24 +331,25 @@ Proof.
   - exfalso. change (Z.of_nat 0 - 1) with (-1) in Hf. rewrite Z.pow_neg_r in Hf by lia. lia.
   - cbn [enc_loop digs].
     destruct (v >? 0) eqn:E; [|reflexivity].
-    pose proof (ty_facts t) as F. pose proof c_int_facts as [C1 C2].
+    pose proof (ty_facts t) as (F1 & F2 & F3 & F4 & _). pose proof c_int_facts as [C1 C2].
     pose proof (grouping_pos base) as G.
-    pose proof (base_ok_cases _ Hb) as Hb'.
+    pose proof (base_ok_range _ Hb) as Hb'.
     rewrite pow2_half in Hf.
     assert (R1 : Z.rem dc (grouping_of base) = dc mod grouping_of base) by (apply Z.rem_mod_nonneg; lia).
     assert (R2 : Z.rem v base = v mod base) by (apply Z.rem_mod_nonneg; lia).
     assert (R3 : Z.quot v base = v / base) by (apply Z.quot_div_nonneg; lia).
-    rewrite R1, R2, R3.
-    assert (A1 : 0 <= dc mod grouping_of base < 8) by (clear - G Hdc; divlia).
-    assert (A2 : 0 <= v mod base < 16 /\ 0 <= v / base <= v) by (clear - Hb' Hv E; divlia).
-    clear R1 R2 R3.
+    rewrite R1, R2, R3. clear R1 R2 R3.
+    pose proof (mod_range dc (grouping_of base) ltac:(lia)) as A1.
+    pose proof (mod_range v base ltac:(lia)) as A2.
+    pose proof (div_range v base ltac:(lia) ltac:(lia)) as A3.
+    assert (A4 : v / base < 2 ^ (Z.of_nat f - 1)) by (apply div_base_lt; lia).
+    assert (A5 : Z.of_nat (S f) = Z.of_nat f + 1) by lia.
     rewrite chk_ok by (apply fits_iff; rewrite C1, C2; lia). cbn [bind].
     rewrite chk_ok by (apply fits_iff; lia). cbn [bind].
     rewrite chk_ok by (apply fits_iff; lia). cbn [bind].
     rewrite chk_ok by (apply fits_iff; lia). cbn [bind].
     rewrite chk_ok by (apply fits_iff; rewrite C1, C2; lia). cbn [bind].
-    apply IH; auto; try lia.
-    + apply div_base_lt; lia.
+    apply IH; auto; lia.
 Qed.
 
 Lemma digs_unfold : forall f base grp v dc buf,
@@ -292,28 +367,31 @@ Lemma digs_fuel_S : forall f base grp v dc buf,
 Proof.
   induction f as [|f IH]; intros base grp v dc buf Hb Hv.
   - exfalso. change (Z.of_nat 0 - 1) with (-1) in Hv. rewrite Z.pow_neg_r in Hv by lia. lia.
-  - remember (S f) as f1. cbn [digs]. subst f1.
-    destruct (v >? 0) eqn:E.
-    + rewrite IH; [cbn [digs]; rewrite E; reflexivity|lia|].
-      rewrite pow2_half in Hv. split; [apply Z.div_pos; lia|apply div_base_lt; lia].
-    + cbn [digs]. rewrite E. reflexivity.
+  - rewrite (digs_unfold (S f)). rewrite (digs_unfold f).
+    destruct (v >? 0) eqn:E; [|reflexivity].
+    apply IH; [lia|].
+    rewrite pow2_half in Hv. split; [apply Z.div_pos; lia|apply div_base_lt; lia].
 Qed.
+
+Lemma signed_max_lt : forall t, ity_signed t = true -> ty_max t + 1 <= 2 ^ 63.
+Proof. intros [[] []] H; try discriminate; vm_compute; discriminate. Qed.
 
 Lemma encode_int_spec_lem : forall t x base grp,
   base_ok base = true -> fits t x = true ->
   encode_int t x base grp = Ok (numeral_text base grp x).
 Proof.
   intros t x base grp Hb Hx.
-  pose proof (ty_facts t) as F. apply fits_iff in Hx.
-  pose proof (base_ok_cases _ Hb) as Hb'.
-  assert (P64 : 2 ^ (Z.of_nat enc_fuel - 1) = 2 ^ 64) by reflexivity.
+  pose proof (ty_facts t) as (F1 & F2 & F3 & F4 & F5 & F6 & F7 & F8). apply fits_iff in Hx.
+  pose proof (base_ok_range _ Hb) as Hb'.
+  assert (P64 : 2 ^ (Z.of_nat enc_fuel - 1) = 18446744073709551616) by reflexivity.
   unfold encode_int, numeral_text. rewrite Hb. cbn [negb].
   rewrite (proj2 (fits_iff t x)) by lia. cbn [negb].
   destruct (x <? 0) eqn:Eneg.
   - assert (Hx0 : (x =? 0) = false) by lia. rewrite Hx0.
+    assert (Hs : ity_signed t = true) by (destruct (ity_signed t) eqn:S; [reflexivity|]; specialize (F5 eq_refl); lia).
+    specialize (F6 Hs). destruct F6 as [F6 F6'].
     destruct (x =? ty_min t) eqn:Emin.
     + (* the lowest() special case *)
-      assert (Hs : ity_signed t = true) by (destruct (ity_signed t) eqn:S; [reflexivity|]; lia).
       assert (Hmin : x = - ty_max t - 1) by lia.
       set (n := - (x + 1)).
       assert (Hn : n = ty_max t) by (unfold n; lia).
@@ -321,12 +399,18 @@ Proof.
       rewrite chk_ok by (apply fits_iff; fold n; lia). cbn [bind]. fold n.
       assert (R2 : Z.rem n base = n mod base) by (apply Z.rem_mod_nonneg; lia).
       assert (R3 : Z.quot n base = n / base) by (apply Z.quot_div_nonneg; lia).
-      rewrite R2, R3.
-      rewrite chk_ok by (apply fits_iff; divlia). cbn [bind].
-      rewrite chk_ok by (apply fits_iff; divlia). cbn [bind].
-      rewrite chk_ok by (apply fits_iff; divlia). cbn [bind].
-      rewrite chk_ok by (apply fits_iff; divlia). cbn [bind].
+      rewrite R2, R3. clear R2 R3.
+      pose proof (mod_range n base ltac:(lia)) as A2.
+      pose proof (div_range n base ltac:(lia) ltac:(lia)) as A3.
+      rewrite chk_ok by (apply fits_iff; lia). cbn [bind].
+      rewrite chk_ok by (apply fits_iff; lia). cbn [bind].
+      rewrite chk_ok by (apply fits_iff; lia). cbn [bind].
+      rewrite chk_ok by (apply fits_iff; lia). cbn [bind].
       assert (Habs : Z.abs x = n + 1) by lia.
+      assert (Hlt : (n + 1) / base < 2 ^ 63).
+      { pose proof (signed_max_lt t Hs).
+        apply Z.div_lt_upper_bound; [lia|]. rewrite Hn.
+        assert (0 < 2 ^ 63) by reflexivity. nia. }
       (* the specification side: one unfolding of digs on |x| *)
       assert (Hspec : digs enc_fuel base grp (Z.abs x) 0 [] =
                       digs enc_fuel base grp ((n + 1) / base) 1 [digit_char ((n + 1) mod base)]).
@@ -336,32 +420,29 @@ Proof.
           assert (E1 : (n + 1 >? 0) = true) by lia. rewrite E1.
           cbn [Z.eqb negb andb]. reflexivity.
         - lia.
-        - split; [apply Z.div_pos; lia|].
-          apply Z.div_lt_upper_bound; [lia|]. change (2 ^ (Z.of_nat 64 - 1)) with (2 ^ 63).
-          assert (n + 1 <= 2 ^ 63).
-          { rewrite Hn. clear - Hs. destruct t as [[] []]; try discriminate; vm_compute; discriminate. }
-          nia. }
-      rewrite Hspec.
+        - split; [apply Z.div_pos; lia|]. exact Hlt. }
+      rewrite Hspec. clear Hspec.
       destruct (n mod base + 1 =? base) eqn:Ed.
       * (* digit == base: digit = 0; ++value *)
-        rewrite chk_ok by (apply fits_iff; divlia). cbn [bind fst snd].
-        assert (Q : (n + 1) / base = n / base + 1 /\ (n + 1) mod base = 0) by divlia.
-        destruct Q as [Q1 Q2]. rewrite Q1, Q2.
-        rewrite enc_loop_spec; [reflexivity|auto|divlia| |lia|cbn; lia].
-        rewrite P64. divlia.
-      * cbn [bind fst snd].
-        assert (Q : (n + 1) / base = n / base /\ (n + 1) mod base = n mod base + 1) by divlia.
-        destruct Q as [Q1 Q2]. rewrite Q1, Q2.
-        rewrite enc_loop_spec; [reflexivity|auto|divlia| |lia|cbn; lia].
-        rewrite P64. divlia.
+        destruct (succ_div_carry n base ltac:(lia) ltac:(lia)) as [Q1 Q2].
+        assert (n / base + 1 <= ty_max t).
+        { rewrite <- Q1. apply Z.div_le_upper_bound; [lia|]. nia. }
+        rewrite chk_ok by (apply fits_iff; lia). cbn [bind fst snd].
+        rewrite Q1, Q2.
+        rewrite enc_loop_spec; [reflexivity|auto|lia| |lia|cbn; lia].
+        rewrite P64. lia.
+      * destruct (succ_div_nocarry n base ltac:(lia) ltac:(lia)) as [Q1 Q2].
+        cbn [bind fst snd].
+        rewrite Q1, Q2.
+        rewrite enc_loop_spec; [reflexivity|auto|lia| |lia|cbn; lia].
+        rewrite P64. lia.
     + rewrite chk_ok by (apply fits_iff; lia). cbn [bind].
       rewrite chk_ok by (apply fits_iff; lia). cbn [bind].
       rewrite enc_loop_spec; [|auto|lia| |lia|cbn; lia].
       * replace (Z.abs x) with (- x) by lia. reflexivity.
       * rewrite P64. lia.
   - destruct (x =? 0) eqn:E0.
-    + assert (x = 0) by lia. subst x.
-      cbn [enc_loop enc_fuel Z.gtb Z.compare bind]. reflexivity.
+    + assert (x = 0) by lia. subst x. reflexivity.
     + rewrite enc_loop_spec; [|auto|lia| |lia|cbn; lia].
       * replace (Z.abs x) with x by lia. reflexivity.
       * rewrite P64. lia.
